@@ -77,8 +77,8 @@ func genConcCase(t *rapid.T) concCase {
 			p, _ := gen.ForProgram(t, concCfg)
 			c.Texts = append(c.Texts, rc.Render(p, rc.Style{Choices: rapid.SliceOfN(rapid.IntRange(0, 63), 4, 16).Draw(t, "ch")}, forFeatures))
 		case 2:
-			// EQU cycle: the error is allowed to name any member, only error-ness is compared
-			c.Texts = append(c.Texts, "a equ b\nb equ c\nc equ a\ndat a\n")
+			// texts that are refused: the error, text included, is the result
+			c.Texts = append(c.Texts, erroneousText(t))
 		default:
 			c.Texts = append(c.Texts, renderValid(t, concCfg))
 		}
@@ -103,8 +103,42 @@ func genConcCase(t *rapid.T) concCase {
 	return c
 }
 
+// wdString is the whole result of an assembly: the warrior, or the error with its text.
 func wdString(wd gmars.WarriorData, err error) string {
-	return fmt.Sprintf("err=%v name=%q author=%q strat=%q start=%d code=%v", err != nil, wd.Name, wd.Author, wd.Strategy, wd.Start, wd.Code)
+	return fmt.Sprintf("err=%v name=%q author=%q strat=%q start=%d code=%v", err, wd.Name, wd.Author, wd.Strategy, wd.Start, wd.Code)
+}
+
+// erroneousText draws a text that cannot be assembled for more than one reason at
+// once (so that the reported reason could depend on the order in which a table is walked).
+func erroneousText(t *rapid.T) string {
+	var sb strings.Builder
+	switch rapid.IntRange(0, 4).Draw(t, "errk") {
+	case 0: // several undefined symbols
+		n := rapid.IntRange(2, 6).Draw(t, "nundef")
+		for i := 0; i < n; i++ {
+			fmt.Fprintf(&sb, "mov u%d, %s\n", i, rapid.SampledFrom([]string{"0", "v0", "1"}).Draw(t, "b"))
+		}
+	case 1: // EQU cycle of 2..5 members, used or not, as operand or FOR count
+		n := rapid.IntRange(2, 5).Draw(t, "ncyc")
+		for i := 0; i < n; i++ {
+			fmt.Fprintf(&sb, "c%d equ c%d%s\n", i, (i+1)%n, rapid.SampledFrom([]string{"", "+1"}).Draw(t, "tail"))
+		}
+		sb.WriteString(rapid.SampledFrom([]string{"dat c0\n", "dat 0\n", "for c0\ndat 0\nrof\n", ";assert c1\ndat 0\n"}).Draw(t, "use"))
+	case 2: // two separate cycles
+		sb.WriteString("a equ b\nb equ a\nx equ y\ny equ z\nz equ x\ndat a, x\n")
+	case 3: // several EQU chains that grow past the expression length limit
+		n := rapid.IntRange(2, 3).Draw(t, "nchains")
+		for c := 0; c < n; c++ {
+			fmt.Fprintf(&sb, "g%d_0 equ 1+1\n", c)
+			for i := 1; i <= 12; i++ {
+				fmt.Fprintf(&sb, "g%d_%d equ g%d_%d+g%d_%d\n", c, i, c, i-1, c, i-1)
+			}
+		}
+		sb.WriteString("mov 0, 1\n")
+	default: // undefined symbols and a cycle and a bad FOR count together
+		sb.WriteString("p equ q\nq equ p\nmov r, s\nfor t\ndat 0\nrof\n")
+	}
+	return sb.String()
 }
 
 func runBattleJob(cfg gmars.SimulatorConfig, w1, w2 *gmars.WarriorData, off int) string {
@@ -374,7 +408,7 @@ func judgeIsoCase(c isoCase, rec *hx.Rec) string {
 	return ""
 }
 
-const c14Rule = "harness built with -race. Job sets of 4..64 jobs over 1..6 texts (repository warriors, C03/C08 generator output, an EQU cycle): `assemble text` or `battle` (simulator from one shared SimulatorConfig value and shared *WarriorData, spawn, Run, hash of the whole core); the jobs run FIRST on 1/2/8/32 goroutines released by a barrier (so process-wide caches are cold; battles use an 8000-cell and an 800-cell simulator sharing the same warrior data), then sequentially: every concurrent result must equal the sequential one, every distinct assembly job is repeated 4x and the first battles 3x (repeatability; see also sub-property repeat) (error text excluded), shared WarriorData unchanged, and the race detector silent (any DATA RACE report fails the check). Non-trivial: >= 8 jobs on >= 8 goroutines with a WarriorData shared by two simulators; distinct by case hash."
+const c14Rule = "harness built with -race. Job sets of 4..64 jobs over 1..6 texts (repository warriors, C03/C08 generator output, texts refused for several reasons at once): `assemble text` or `battle` (simulator from one shared SimulatorConfig value and shared *WarriorData, spawn, Run, hash of the whole core); the jobs run FIRST on 1/2/8/32 goroutines released by a barrier (so process-wide caches are cold; battles use an 8000-cell and an 800-cell simulator sharing the same warrior data), then sequentially: every concurrent result must equal the sequential one, every distinct assembly job is repeated 4x and the first battles 3x (repeatability; see also sub-property repeat; a refused text must be refused with the same error text), shared WarriorData unchanged, and the race detector silent (any DATA RACE report fails the check). Non-trivial: >= 8 jobs on >= 8 goroutines with a WarriorData shared by two simulators; distinct by case hash."
 
 func TestC14_Concurrent(t *testing.T) {
 	hx.Run(t, hx.Prop[concCase]{
@@ -541,6 +575,14 @@ func genRepeatCase(t *rapid.T) repeatCase {
 	} else {
 		c.Text = renderValid(t, c.Cfg)
 	}
+	switch rapid.IntRange(0, 5).Draw(t, "bad") {
+	case 0:
+		c.Text = erroneousText(t)
+	case 1:
+		for k := rapid.IntRange(1, 4).Draw(t, "nmut"); k > 0; k-- {
+			c.Text = gen.MutateSource(t, c.Text, "")
+		}
+	}
 	c.N = rapid.IntRange(5, 9).Draw(t, "n")
 	return c
 }
@@ -558,7 +600,13 @@ func judgeRepeatCase(c repeatCase, rec *hx.Rec) string {
 	}
 	if rec != nil {
 		lower := strings.ToLower(c.Text)
-		rec.Case(strings.Contains(lower, "equ") && strings.Contains(lower, "for"), hx.HashJSON(c), func() any { return c })
+		var cl []string
+		if strings.HasPrefix(first, "err=<nil>") {
+			cl = append(cl, "accepted")
+		} else {
+			cl = append(cl, "refused")
+		}
+		rec.Case(strings.Contains(lower, "equ") && (strings.Contains(lower, "for") || cl[0] == "refused"), hx.HashJSON(c), func() any { return c }, cl...)
 	}
 	return ""
 }
@@ -566,7 +614,7 @@ func judgeRepeatCase(c repeatCase, rec *hx.Rec) string {
 func TestC14_Repeat(t *testing.T) {
 	hx.Run(t, hx.Prop[repeatCase]{
 		ID: "C14", Sub: "repeat", Checks: hx.Scale(350, 200000),
-		Rule: "repeatability: one generated text (FOR programs with chained and shared EQUs in their counts two times out of three, C03 programs otherwise) is assembled 5..9 times in one process under one configuration; every result must equal the first (Go randomises map iteration per range statement, so anything that depends on it shows). Non-trivial: the text has an EQU and a FOR; distinct by case hash.",
+		Rule: "repeatability: one generated text (FOR programs with chained and shared EQUs in their counts two times out of three, C03 programs otherwise) is assembled 5..9 times in one process under one configuration; every result - the warrior, or the error including its text - must equal the first (Go randomises map iteration per range statement, so anything that depends on it shows). One text in six is refused for several reasons at once (several undefined symbols, EQU cycles, several over-long EQU chains), one in six is a mutated program. Non-trivial: the text has an EQU and a FOR, or an EQU and is refused; distinct by case hash.",
 		Gen:  genRepeatCase, Judge: judgeRepeatCase,
 	})
 }
